@@ -424,7 +424,12 @@ Section Final.
   Proof.
     induction tgs as [|tg tgs IH]; intros kept; simpl.
     - intros H. injection H as <-. constructor.
-    - destruct (gmv tg) as [| |ov] eqn:Et; try discriminate.
+    - assert (W : forall k, Forall (fun gm => In (fst gm) tgs /\ snd gm = gmv (fst gm) /\
+                      exists ov, gmv (fst gm) = MVec ov /\ Fitness.dominates_loop false iv ov = false) k ->
+                  Forall (fun gm => In (fst gm) (tg :: tgs) /\ snd gm = gmv (fst gm) /\
+                      exists ov, gmv (fst gm) = MVec ov /\ Fitness.dominates_loop false iv ov = false) k).
+      { intros k F. eapply Forall_impl; [|exact F]. intros gm [A B]. split; [now right|exact B]. }
+      destruct (gmv tg) as [| |ov] eqn:Et; try (intros H; apply W, IH, H).
       destruct (multi_filter obj iv tgs) as [k|e]; [|discriminate].
       specialize (IH k eq_refl).
       assert (IH' : Forall (fun gm => In (fst gm) (tg :: tgs) /\ snd gm = gmv (fst gm) /\
